@@ -93,7 +93,7 @@ Section Top.
     intros a Hb v tv. destruct a; try discriminate Hb.
     - (* bare builtin class *)
       apply (assert_of_raise (ACls c) v tv PTypeCheckC tv I); [|cbn; tauto].
-      cbn [is_inst]. unfold has_required. cbn [ann_name negb]. unfold inst_cls, in_cls.
+      cbn [is_inst]. unfold has_required, has_required_tables. cbn [ann_name negb]. unfold inst_cls, in_cls.
       rewrite (gf_bare_sup cfg good c); [reflexivity|].
       destruct c; try discriminate Hb; cbn; tauto.
     - (* bare typing generic *)
@@ -116,7 +116,7 @@ Section Top.
         assert (Hin : In o bare_names).
         { apply existsb_exists in Hn as [x [Hx He]]. apply tname_eqb_eq in He. now subst. }
         pose proof (gf_bare_rejected cfg good o Hin) as Hr. unfold bare_rejected in Hr.
-        cbn [is_inst]. unfold has_required. cbn [ann_name n_type_args].
+        cbn [is_inst]. unfold has_required, has_required_tables. cbn [ann_name n_type_args].
         destruct (req_exact cfg o) as [k|].
         * destruct k; [discriminate Hr | reflexivity].
         * destruct (req_min cfg o) as [k|]; [|discriminate Hr]. destruct k; [discriminate Hr | reflexivity].
